@@ -2184,6 +2184,10 @@ class FortranFile:
         if not doc_match:
             add_line_comment(file_ast, docs)
             return False
+        # `!>` starts the documentation of the next entity: a pending trailing
+        # comment belongs to the previous one
+        if doc_match.group(1) == ">":
+            add_line_comment(file_ast, docs)
 
         _ln = ln
         ln, docs[:], predocmark = self.get_docstring(ln, line, doc_match, docs)
@@ -2232,7 +2236,9 @@ class FortranFile:
         for i in range(ln, self.nLines):
             next_line = self.get_line(i, pp_content=True)
             match = self.DOC_COMMENT_MATCH.match(next_line)
-            if not match:
+            # `!>` after a block that follows its entity (`!!`, `!<`) starts the
+            # documentation of the next entity
+            if not match or (not predocmark and match.group(1) == ">"):
                 ln = i
                 break
             docstring.append(next_line[match.end(0) :].strip())
